@@ -62,7 +62,7 @@ Check ==
                         <<"C07_Confined", C07_Confined>>, <<"C07_NothingRemoved", C07_NothingRemoved>>,
                         <<"C07_InvalidRejected", C07_InvalidRejected_(f)>>,
                         <<"C09_DryTouchesNothing", C09_DryTouchesNothing>>, <<"C09_DryIsReportOrInvalid", C09_DryIsReportOrInvalid>>,
-                        <<"C09_CountsDeclared", C09_CountsDeclared_(f)>>}
+                        <<"C09_CountsDeclared", C09_CountsDeclared_(f)>>, <<"C09_RealRejectsIffDry", C09_RealRejectsIffDry_(f)>>}
          propsVerify == {<<"C08_VerdictIff", C08_VerdictIff_(f)>>, <<"C08_Lists", C08_Lists_(f)>>, <<"C08_ReadOnly", C08_ReadOnly>>}
      IN
      bad' = bad \cup
